@@ -87,6 +87,8 @@ RichInstr(n) ==
          \cup {[i |-> "rmap", lane |-> l, key |-> key, v |-> n] : l \in MLanes, key \in Keys}
          \cup {[i |-> "later", ms |-> ms, then |-> b] : ms \in {20, 50}, b \in Basic(n)}
          \cup {[i |-> "susp", then |-> b] : b \in Basic(n)}
+         \* commands through a registered commander: overwritable (csend) or queued (cqueue)
+         \cup {[i |-> c, target |-> t, v |-> n] : c \in {"csend", "cqueue"}, t \in {"t1", "t2"}}
 
 Plain(n) ==
     {[i |-> "set", lane |-> l, v |-> n] : l \in VLanes}
